@@ -223,6 +223,9 @@ type Value struct {
 	Nil    bool      // the literal nil in a specification
 }
 
+// refMarker tags leaves that hold heap references (see registerRefLeaves).
+var refMarker types.Type = types.Typ[types.UnsafePointer]
+
 func sortOfBasic(b *types.Basic) string {
 	switch {
 	case b.Info()&types.IsBoolean != 0:
@@ -255,7 +258,7 @@ func flatten(t types.Type) []Leaf {
 		}
 		return []Leaf{{"", sortOfBasic(u), t}}
 	case *types.Slice:
-		return []Leaf{{".arr", SInt, nil}, {".off", SInt, nil}, {".len", SInt, nil}, {".cap", SInt, nil}}
+		return []Leaf{{".arr", SInt, refMarker}, {".off", SInt, nil}, {".len", SInt, nil}, {".cap", SInt, nil}}
 	case *types.Interface:
 		return []Leaf{{".typ", SInt, nil}, {".val", SInt, nil}}
 	case *types.Struct:
@@ -284,7 +287,9 @@ func flatten(t types.Type) []Leaf {
 			}
 		}
 		return out
-	case *types.Pointer, *types.Map, *types.Chan, *types.Signature:
+	case *types.Pointer, *types.Map, *types.Chan:
+		return []Leaf{{"", SInt, refMarker}}
+	case *types.Signature:
 		return []Leaf{{"", SInt, nil}}
 	case *types.TypeParam:
 		return []Leaf{{"", SInt, nil}}
